@@ -15,6 +15,7 @@
 EXTENDS Integers, FiniteSets
 
 CONSTANTS ConnE1, ConnE2,   \* connection (listener) identities per endpoint
+          ExpConn,          \* scenario driver: the listeners whose token carries an expiry (far in the future)
           MaxClock,         \* discrete clock bound (token deadlines)
           DisableExpiry     \* disconnect-on-expiry disabled
 
@@ -111,7 +112,8 @@ FinishAll(s, X, cause) ==
 
 \* a new listener for an identity that is not connected
 ListenOK(s, c) == ~s.down /\ s.cst[c] \in {"idle", "gone"}
-ListenF(s, c) == ConnectF(IF s.cst[c] = "gone" THEN RedialF(s, c) ELSE s, c, 0)
+TokenDl(c) == IF c \in ExpConn THEN MaxClock + 1 ELSE 0
+ListenF(s, c) == ConnectF(IF s.cst[c] = "gone" THEN RedialF(s, c) ELSE s, c, TokenDl(c))
 
 \* a request for endpoint e: every upstream the load balancer may pick
 RequestSucc(s, e) ==
